@@ -455,13 +455,47 @@ def csAudit (base : List Sampling.Card) (num : Nat → Nat) (cons0 : List Sampli
     (π : List Nat) : Bool :=
   csLoop (cons0.map (·.id)) val T s pol K (csInit base num cons0 π) []
 
-/-- what the policy must respect in a round (`ids` = the contests in dict order, `cid` = the contest with the
-false assertion): one size per contest, `n_c ≤ #cards listing c` (beyond it `consistent_sampling` raises), and
-at least one card for contest `cid` (with `n = 0` the threshold is not set by the call and `mvrs_to_data` uses a
-stale one or raises: DESIGN F20) -/
+/-- sizes a call of `consistent_sampling` accepts (`ids` = the contests in dict order): one size per contest and
+`n_c ≤ #cards listing c` (beyond it the walk runs off the list: `IndexError`) -/
+def SizesIn (base : List Sampling.Card) (ids : List String) (sizes : List Nat) : Prop :=
+  sizes.length = ids.length ∧ ∀ (k : Nat) (id : String) (n : Nat), ids[k]? = some id → sizes[k]? = some n →
+    n ≤ (base.filter (fun cd => cd.has id)).length
+
+/-- the simple condition on a round: sizes within range and at least one card for contest `cid` -/
 def SizesOk (base : List Sampling.Card) (ids : List String) (cid : String) (sizes : List Nat) : Prop :=
   sizes.length = ids.length ∧ ∀ (k : Nat) (id : String) (n : Nat), ids[k]? = some id → sizes[k]? = some n →
     n ≤ (base.filter (fun cd => cd.has id)).length ∧ (id = cid → 1 ≤ n)
+
+/-- assertion `a` of contest `c` was confirmed on the data of the round with output `o` -/
+def confirmedIn (ids : List String) (val : String → String → Nat → ℚ) (T : String → String → SeqTest)
+    (c : Status.Contest) (a : Assertion) (o : CsOut) : Bool :=
+  match dataOf ids o.dataCards c.id with
+  | some idx => pLe (T c.id a.name) c.riskLimit (idx.map (val c.id a.name))
+  | none => false
+
+/-- **what the policy must respect** in the round that follows the outputs `seen` (`cid` = the contest with the
+false assertion, `conf o` = "that assertion was confirmed on the data of round `o`"): sizes within range, and
+contest `cid` gets at least one card UNLESS the assertion has been confirmed in an earlier round.  With `n_c = 0`
+the call does not set the contest's threshold and `mvrs_to_data` uses a stale one or raises (DESIGN F20), so its
+data need not be a prefix of anything; `Audit.find_sample_size` (L1080-1122) sets `sample_size = 0` exactly for a
+contest all of whose assertions are already `proved`, which is the exception allowed here. -/
+def PolicyOk (base : List Sampling.Card) (ids : List String) (conf : CsOut → Bool) (cid : String)
+    (seen : List CsOut) (sizes : List Nat) : Prop :=
+  sizes.length = ids.length ∧ ∀ (k : Nat) (id : String) (n : Nat), ids[k]? = some id → sizes[k]? = some n →
+    n ≤ (base.filter (fun cd => cd.has id)).length ∧ (id = cid → 1 ≤ n ∨ ∃ o ∈ seen, conf o = true)
+
+theorem SizesOk.sizesIn {base : List Sampling.Card} {ids : List String} {cid : String} {sizes : List Nat}
+    (h : SizesOk base ids cid sizes) : SizesIn base ids sizes :=
+  ⟨h.1, fun k id n h1 h2 => (h.2 k id n h1 h2).1⟩
+
+theorem PolicyOk.sizesIn {base : List Sampling.Card} {ids : List String} {conf : CsOut → Bool} {cid : String}
+    {seen : List CsOut} {sizes : List Nat} (h : PolicyOk base ids conf cid seen sizes) : SizesIn base ids sizes :=
+  ⟨h.1, fun k id n h1 h2 => (h.2 k id n h1 h2).1⟩
+
+theorem SizesOk.policyOk {base : List Sampling.Card} {ids : List String} {cid : String} {sizes : List Nat}
+    (h : SizesOk base ids cid sizes) (conf : CsOut → Bool) (seen : List CsOut) :
+    PolicyOk base ids conf cid seen sizes :=
+  ⟨h.1, fun k id n h1 h2 => ⟨(h.2 k id n h1 h2).1, fun e => Or.inl ((h.2 k id n h1 h2).2 e)⟩⟩
 
 theorem setSizes_eq_zipWith : ∀ (cons : List Sampling.Contest) (ns : List Nat), cons.length = ns.length →
     Sampling.Rounds.setSizes cons ns = List.zipWith (fun con n => { con with sampleSize := n }) cons ns
@@ -494,14 +528,14 @@ theorem setSizes_map_id : ∀ (cons : List Sampling.Contest) (ns : List Nat),
 
 theorem wf_setSizes (base : List Sampling.Card) (num : Nat → Nat) (hnum : StrictMono num) (π : List Nat)
     (hπ : π.Perm (List.range base.length)) (cons : List Sampling.Contest) (hids : (cons.map (·.id)).Nodup)
-    (cid : String) (sizes : List Nat) (hs : SizesOk base (cons.map (·.id)) cid sizes) :
+    (sizes : List Nat) (hs : SizesIn base (cons.map (·.id)) sizes) :
     C07.Wf (cvrList base num π) (Sampling.Rounds.setSizes cons sizes) := by
   apply cvrList_wf base num hnum π hπ
   · rw [setSizes_map_id]; exact hids
   · intro con hm
     obtain ⟨k, hk⟩ := List.mem_iff_getElem?.1 hm
     obtain ⟨con0, n, h1, h2, rfl⟩ := setSizes_getElem? cons sizes (by rw [hs.1]; simp) k con hk
-    exact (hs.2 k con0.id n (by rw [List.getElem?_map, h1]; rfl) h2).1
+    exact hs.2 k con0.id n (by rw [List.getElem?_map, h1]; rfl) h2
 
 /-- the invariant of the loop -/
 structure CsInv (cl : List Sampling.Card) (ids : List String) (st : CsState) : Prop where
@@ -512,17 +546,17 @@ structure CsInv (cl : List Sampling.Card) (ids : List String) (st : CsState) : P
 /-- **one round in closed form**: it succeeds, the invariant is kept, and every contest given `n ≥ 1` cards has as
 its data the first `n` entries of the sub-order of `π` of the cards listing it -/
 theorem step_closed (base : List Sampling.Card) (num : Nat → Nat) (hnum : StrictMono num) (π : List Nat)
-    (hπ : π.Perm (List.range base.length)) (ids : List String) (hids : ids.Nodup) (cid : String)
-    (st : CsState) (hinv : CsInv (cvrList base num π) ids st) (r : CsRound) (hs : SizesOk base ids cid r.sizes) :
+    (hπ : π.Perm (List.range base.length)) (ids : List String) (hids : ids.Nodup)
+    (st : CsState) (hinv : CsInv (cvrList base num π) ids st) (r : CsRound) (hs : SizesIn base ids r.sizes) :
     ∃ st' o, Sampling.Rounds.step true st r = .ok (st', o) ∧ CsInv (cvrList base num π) ids st' ∧
       o.dataCards.length = ids.length ∧
       ∀ (k : Nat) (id : String) (n : Nat), ids[k]? = some id → r.sizes[k]? = some n → 1 ≤ n →
         o.dataCards[k]? = some (.ok ((π.filter (lists base id)).take n)) := by
   obtain ⟨hcards, hidsEq, hprev⟩ := hinv
   have hids' : (st.contests.map (·.id)).Nodup := by rw [hidsEq]; exact hids
-  have hs' : SizesOk base (st.contests.map (·.id)) cid r.sizes := by rw [hidsEq]; exact hs
+  have hs' : SizesIn base (st.contests.map (·.id)) r.sizes := by rw [hidsEq]; exact hs
   have hwf : C07.Wf st.cards (Sampling.Rounds.setSizes st.contests r.sizes) := by
-    rw [hcards]; exact wf_setSizes base num hnum π hπ st.contests hids' cid r.sizes hs'
+    rw [hcards]; exact wf_setSizes base num hnum π hπ st.contests hids' r.sizes hs'
   obtain ⟨st', o, e, hc, hcon, hpv, hsel, hdata⟩ := C10.step_eq st r hwf (by rw [hcards]; exact hprev)
   have hlen : st.contests.length = r.sizes.length := by
     have := hs'.1; simp at this; exact this.symm
@@ -586,44 +620,57 @@ theorem roundComplete_forces (ids : List String) (val : String → String → Na
 
 /-- **Part 2 (event inclusion, for every order).**  Whatever the policy and the number of rounds: if the audit is
 reported complete at some round, the p-value of assertion `a` of contest `c` is at most `c`'s risk limit on the
-used values of SOME prefix of the order `π`. -/
+used values of SOME prefix of the order `π`.  (`seen` = the outputs of the rounds already run; `hseen`: a
+confirmation of `a` among them was on a prefix.) -/
 theorem csLoop_prefix (base : List Sampling.Card) (num : Nat → Nat) (hnum : StrictMono num) (π : List Nat)
     (hπ : π.Perm (List.range base.length)) (ids : List String) (hids : ids.Nodup)
     (val : String → String → Nat → ℚ) (T : String → String → SeqTest)
     (s : Status.State) (c : Status.Contest) (hc : c ∈ s) (a : Assertion) (ha : a ∈ c.assertions)
-    (pol : List CsOut → CsRound) (hpol : ∀ seen, SizesOk base ids c.id (pol seen).sizes) :
+    (pol : List CsOut → CsRound)
+    (hpol : ∀ seen, PolicyOk base ids (confirmedIn ids val T c a) c.id seen (pol seen).sizes) :
     ∀ (K : Nat) (st : CsState) (seen : List CsOut), CsInv (cvrList base num π) ids st →
+      ((∃ o ∈ seen, confirmedIn ids val T c a o = true) →
+        ∃ k, pLe (T c.id a.name) c.riskLimit ((π.take k).filterMap (datum base val c.id a.name)) = true) →
       csLoop ids val T s pol K st seen = true →
       ∃ k, pLe (T c.id a.name) c.riskLimit ((π.take k).filterMap (datum base val c.id a.name)) = true
-  | 0, _, _, _, h => by simp [csLoop] at h
-  | K + 1, st, seen, hinv, h => by
+  | 0, _, _, _, _, h => by simp [csLoop] at h
+  | K + 1, st, seen, hinv, hseen, h => by
     obtain ⟨st', o, e, hinv', hlen, hdata⟩ :=
-      step_closed base num hnum π hπ ids hids c.id st hinv (pol seen) (hpol seen)
+      step_closed base num hnum π hπ ids hids st hinv (pol seen) (hpol seen).sizesIn
+    -- a confirmation of `a` in this round is on a prefix, or `a` was confirmed before
+    have hthis : confirmedIn ids val T c a o = true →
+        ∃ k, pLe (T c.id a.name) c.riskLimit ((π.take k).filterMap (datum base val c.id a.name)) = true := by
+      intro hconf
+      unfold confirmedIn dataOf at hconf
+      cases hl : (ids.zip o.dataCards).lookup c.id with
+      | none => rw [hl] at hconf; simp at hconf
+      | some d =>
+        rw [hl] at hconf
+        cases d with
+        | error e => simp at hconf
+        | ok idx =>
+          dsimp only at hconf
+          obtain ⟨k, hk1, hk2⟩ := lookup_zip_some ids o.dataCards c.id _ hl
+          have hklt : k < (pol seen).sizes.length := by
+            rw [(hpol seen).1]; exact (List.getElem?_eq_some_iff.1 hk1).1
+          have hn : (pol seen).sizes[k]? = some (pol seen).sizes[k] := List.getElem?_eq_getElem hklt
+          rcases ((hpol seen).2 k c.id _ hk1 hn).2 rfl with h1 | hbefore
+          · rw [hdata k c.id _ hk1 hn h1] at hk2
+            simp only [Option.some.injEq, Except.ok.injEq] at hk2
+            obtain ⟨j, hj⟩ := data_prefix base val c.id a.name π (pol seen).sizes[k]
+            exact ⟨j, by rw [← hj, hk2]; exact hconf⟩
+          · exact hseen hbefore
     unfold csLoop at h
     rw [e] at h
     simp only [Bool.or_eq_true] at h
     rcases h with h | h
     · obtain ⟨idx, hd, hp⟩ := roundComplete_forces ids val T s c hc a ha o.dataCards h
-      unfold dataOf at hd
-      cases hl : (ids.zip o.dataCards).lookup c.id with
-      | none => rw [hl] at hd; simp at hd
-      | some d =>
-        rw [hl] at hd
-        cases d with
-        | error e => simp at hd
-        | ok idx' =>
-          simp only [Option.some.injEq] at hd
-          subst hd
-          obtain ⟨k, hk1, hk2⟩ := lookup_zip_some ids o.dataCards c.id _ hl
-          have hklt : k < (pol seen).sizes.length := by
-            rw [(hpol seen).1]; exact (List.getElem?_eq_some_iff.1 hk1).1
-          have hn : (pol seen).sizes[k]? = some (pol seen).sizes[k] := List.getElem?_eq_getElem hklt
-          have h1 := ((hpol seen).2 k c.id _ hk1 hn).2 rfl
-          rw [hdata k c.id _ hk1 hn h1] at hk2
-          simp only [Option.some.injEq, Except.ok.injEq] at hk2
-          obtain ⟨j, hj⟩ := data_prefix base val c.id a.name π (pol seen).sizes[k]
-          exact ⟨j, by rw [← hj, hk2]; exact hp⟩
-    · exact csLoop_prefix base num hnum π hπ ids hids val T s c hc a ha pol hpol K st' _ hinv' h
+      exact hthis (by unfold confirmedIn; rw [hd]; exact hp)
+    · refine csLoop_prefix base num hnum π hπ ids hids val T s c hc a ha pol hpol K st' _ hinv' ?_ h
+      rintro ⟨o', ho', hc'⟩
+      rcases List.mem_append.1 ho' with ho' | ho'
+      · exact hseen ⟨o', ho', hc'⟩
+      · rw [List.mem_singleton.1 ho'] at hc'; exact hthis hc'
 
 theorem csInit_inv (base : List Sampling.Card) (num : Nat → Nat) (cons0 : List Sampling.Contest) (π : List Nat) :
     CsInv (cvrList base num π) (cons0.map (·.id)) (csInit base num cons0 π) :=
@@ -634,12 +681,14 @@ theorem csAudit_ever (base : List Sampling.Card) (num : Nat → Nat) (hnum : Str
     (hπ : π.Perm (List.range base.length)) (cons0 : List Sampling.Contest) (hids : (cons0.map (·.id)).Nodup)
     (val : String → String → Nat → ℚ) (T : String → String → SeqTest)
     (s : Status.State) (c : Status.Contest) (hc : c ∈ s) (a : Assertion) (ha : a ∈ c.assertions)
-    (pol : List CsOut → CsRound) (hpol : ∀ seen, SizesOk base (cons0.map (·.id)) c.id (pol seen).sizes) (K : Nat)
+    (pol : List CsOut → CsRound)
+    (hpol : ∀ seen, PolicyOk base (cons0.map (·.id)) (confirmedIn (cons0.map (·.id)) val T c a) c.id seen
+      (pol seen).sizes) (K : Nat)
     (h : csAudit base num cons0 s T val pol K π = true) :
     ever (fun h => pLe (T c.id a.name) c.riskLimit (h.filterMap (datum base val c.id a.name))) [] π = true := by
   rw [ever_iff]
   obtain ⟨k, hk⟩ := csLoop_prefix base num hnum π hπ _ hids val T s c hc a ha pol hpol K _ []
-    (csInit_inv base num cons0 π) h
+    (csInit_inv base num cons0 π) (by rintro ⟨o, ho, _⟩; simp at ho) h
   exact ⟨k, by simpa using hk⟩
 
 /-! ### the risk limit of the audit with consistent sampling -/
@@ -657,7 +706,8 @@ theorem csAudit_fraction_le_hitG (base : List Sampling.Card) (num : List Nat →
     (s : Status.State) (c : Status.Contest) (hc : c ∈ s) (a : Assertion) (ha : a ∈ c.assertions)
     (policy : List Nat → List CsOut → CsRound)
     (hpol : ∀ π, π.Perm (List.range base.length) → ∀ seen,
-      SizesOk base (cons0.map (·.id)) c.id (policy π seen).sizes) (K : Nat) :
+      PolicyOk base (cons0.map (·.id)) (confirmedIn (cons0.map (·.id)) val T c a) c.id seen (policy π seen).sizes)
+    (K : Nat) :
     (((orders (List.range base.length)).filter
         (fun π => csAudit base (num π) cons0 s T val (policy π) K π)).length : ℚ) / (base.length.factorial : ℚ)
       ≤ hitG (fun h => pLe (T c.id a.name) c.riskLimit (h.filterMap (datum base val c.id a.name)))
@@ -705,7 +755,8 @@ theorem consistent_sampling_audit_risk_limit (base : List Sampling.Card) (num : 
     (s : Status.State) (c : Status.Contest) (hc : c ∈ s) (a : Assertion) (ha : a ∈ c.assertions)
     (policy : List Nat → List CsOut → CsRound)
     (hpol : ∀ π, π.Perm (List.range base.length) → ∀ seen,
-      SizesOk base (cons0.map (·.id)) c.id (policy π seen).sizes) (K : Nat)
+      PolicyOk base (cons0.map (·.id)) (confirmedIn (cons0.map (·.id)) val T c a) c.id seen (policy π seen).sizes)
+    (K : Nat)
     (sqrtF : ℚ → ℚ) (cfg : NM.Cfg) (test : NM.Test)
     (hN : cfg.N = some ((List.range base.length).filterMap (datum base val c.id a.name)).length)
     (hT : T c.id a.name = NM.run sqrtF cfg test)
@@ -753,7 +804,7 @@ theorem csLoop_eq_spec (base : List Sampling.Card) (num : Nat → Nat) (hnum : S
   | 0, _, _, _ => rfl
   | K + 1, st, seen, hinv => by
     obtain ⟨st', o, e, hinv', hlen, hdata⟩ :=
-      step_closed base num hnum π hπ ids hids "" st hinv (pol' (seen.map (·.dataCards))) (hpol _ "")
+      step_closed base num hnum π hπ ids hids st hinv (pol' (seen.map (·.dataCards))) (hpol _ "").sizesIn
     have hs := hpol (seen.map (·.dataCards))
     have hd : o.dataCards = specData base ids (pol' (seen.map (·.dataCards))).sizes π := by
       apply List.ext_getElem?
@@ -859,7 +910,7 @@ example :
         (fun π => csAudit baseE id consE sE TE valE polE 2 π)).length : ℚ) / (baseE.length.factorial : ℚ) ≤ 3/5 :=
   consistent_sampling_audit_risk_limit baseE (fun _ => id) (fun _ => strictMono_id) consE (by decide) valE TE sE
     _ (List.mem_cons_self) { name := "a" } (by simp) (fun _ => polE)
-    (fun _ _ seen => sizesOkE _ (polE'_sizes _) _) 2 sqrtRat cfgA (.alpha .fixedAlt)
+    (fun _ _ seen => (sizesOkE _ (polE'_sizes _) _).policyOk _ seen) 2 sqrtRat cfgA (.alpha .fixedAlt)
     (by show cfgA.N = some ((List.range baseE.length).filterMap (datum baseE valE "A" "a")).length
         rw [dataE]; rfl) rfl
     ⟨by norm_num [cfgA], ⟨by norm_num [cfgA, eps], by norm_num [cfgA, eps], by norm_num [cfgA]⟩, trivial⟩
